@@ -26,6 +26,7 @@ import (
 	"github.com/andydunstall/piko/server"
 	"github.com/andydunstall/piko/server/cluster"
 	"github.com/andydunstall/piko/server/config"
+	"github.com/andydunstall/piko/server/upstream"
 )
 
 type NodeOpts struct {
@@ -95,7 +96,41 @@ func StartNode(o NodeOpts) (*Node, error) {
 	if err := s.Start(); err != nil {
 		return nil, err
 	}
-	return &Node{ID: conf.Cluster.NodeID, Server: s, Conf: conf}, nil
+	n := &Node{ID: conf.Cluster.NodeID, Server: s, Conf: conf}
+	nodesMu.Lock()
+	nodesByUpstream[conf.Upstream.AdvertiseAddr] = n
+	nodesMu.Unlock()
+	return n, nil
+}
+
+var (
+	nodesMu         sync.Mutex
+	nodesByUpstream = map[string]*Node{}
+)
+
+// registered: how many upstreams the in-process node behind upstreamAddr has registered for the endpoint
+// (-1 if the address is not an in-process node's upstream port, e.g. a relay or another process).
+func registered(upstreamAddr, endpoint string) int {
+	nodesMu.Lock()
+	n := nodesByUpstream[upstreamAddr]
+	nodesMu.Unlock()
+	if n == nil || n.stopped.Load() {
+		return -1
+	}
+	mgr, ok := n.Server.VerifUpstream().VerifManager().(*upstream.LoadBalancedManager)
+	if !ok {
+		return -1
+	}
+	return mgr.Endpoints()[endpoint]
+}
+
+// awaitRegistered: client.Upstream.Listen returns before the server has registered the upstream; scenarios
+// that go on to send requests wait for the registration.
+func awaitRegistered(upstreamAddr, endpoint string, before int) {
+	if before < 0 {
+		return
+	}
+	WaitFor(5*time.Second, func() bool { return registered(upstreamAddr, endpoint) > before })
 }
 
 func (n *Node) ProxyAddr() string    { return n.Conf.Proxy.AdvertiseAddr }
@@ -255,10 +290,12 @@ func Listen(ctx context.Context, upstreamAddr, endpoint, id, token, tenant strin
 		MinReconnectBackoff: 20 * time.Millisecond,
 		MaxReconnectBackoff: 200 * time.Millisecond,
 	}
+	before := registered(upstreamAddr, endpoint)
 	ln, err := up.Listen(ctx, endpoint)
 	if err != nil {
 		return nil, err
 	}
+	awaitRegistered(upstreamAddr, endpoint, before)
 	u := &Upstream{ID: id, Endpoint: endpoint, Ln: ln}
 	u.srv = &http.Server{Handler: http.HandlerFunc(func(w http.ResponseWriter, r *http.Request) {
 		u.Requests.Add(1)
